@@ -19,6 +19,8 @@ def classify(op, R):
     p = op.split(" ")
     if p[0] == "dest":
         return "dest:%s:%s:%s" % (p[1], p[2], "err" if "err" in R else "ok")
+    if p[0] == "capsweep":
+        return "capsweep:icc%s:%s" % ("0" if p[4] == "0" else "1", R.split(" ")[0])
     if p[0] == "aba":
         return "aba:d%s:%s" % (p[5], " ".join(R.split(" ")[:6]))
     if p[0] == "wcase":
@@ -84,6 +86,10 @@ def gen_ops(rng, tier):
         rst = rng.choice([0, 0, 0, 1, 2])
         ops.append("wcase prec=%d lossless=%d %d %d %d %d %d %d %d %d %d %d" % (
             prec, int(lossless), w, h, ss, q, kind, rng.randrange(1 << 30), opt, prog, arith, rst))
+    # every capacity 1..size+4 of small JPEGs, with and without an ICC profile (whose chunk data is copied in bulk), both allocation modes
+    for i in range(40 if big else 8):
+        icclen = rng.choice([0, 0, 1, 100, 700, 3000, 4058, rng.randint(1, 5000)])
+        ops.append("capsweep %d %d %d %d %d %d" % (rng.choice([8, 16, 24]), rng.choice([8, 16]), rng.choice([100, 90, 50]), icclen, rng.randrange(1 << 30), rng.choice([0, 0, 2])))
     # the allocator returns the address of a buffer the caller has freed (D38)
     for i in range(40 if big else 8):
         ops.append("aba %d %d %d %d %d" % (rng.choice([16, 24, 33, 48]), rng.choice([16, 24, 31]), rng.choice([100, 95, 75]), rng.randrange(1 << 30), rng.choice([0, 1, 1, 2, 17, 200])))
